@@ -16,8 +16,8 @@ Qed.
 
 Lemma mem_false c s : mem c s = false <-> ~ In c s.
 Proof.
-  rewrite <- mem_In. destruct (mem c s); split; intro H; try reflexivity; try discriminate; try congruence.
-  now destruct H.
+  rewrite <- mem_In. destruct (mem c s); split; intro H; try reflexivity; try discriminate; try congruence;
+    now destruct H.
 Qed.
 
 (* ------------------------------------------------------- takeWhile / dropWhile *)
@@ -91,7 +91,7 @@ Proof.
   rewrite E1, E2, E3, F1, F2, F3. repeat split; reflexivity.
 Qed.
 
-Lemma last_split c s : ~ In c s \/ exists a b, s = a ++ c :: b /\ ~ In c b.
+Lemma last_split (c : N) (s : str) : ~ In c s \/ exists a b, s = a ++ c :: b /\ ~ In c b.
 Proof.
   induction s as [|x s [IH | (a & b & -> & Hb)]].
   - left. intros [].
@@ -118,7 +118,7 @@ Proof. reflexivity. Qed.
 Lemma fn_norm_normal s : normal (fn_norm s).
 Proof.
   rewrite fn_norm_eq. split.
-  - intro I. apply in_rev in I. apply dw_incl in I. apply in_rev in I. rewrite rev_involutive in I.
+  - intro I. rewrite <- in_rev in I. apply dw_incl in I. rewrite <- in_rev in I.
     apply in_map_iff in I as (x & E & _). unfold unify in E.
     destruct (N.eqb x BSL || N.eqb x SEP) eqn:B; [discriminate|].
     apply orb_false_iff in B as [B _]. apply N.eqb_neq in B. congruence.
@@ -137,7 +137,7 @@ Proof.
     destruct (N.eqb_spec x SEP) as [->|]; reflexivity. }
   rewrite M. destruct (rev f) as [|x r] eqn:E.
   - apply (f_equal (@rev N)) in E. rewrite rev_involutive in E. now subst.
-  - simpl. destruct (N.eqb_spec SEP x) as [<-|Hne].
+  - cbn [dropWhile]. destruct (N.eqb_spec SEP x) as [<-|Hne].
     + exfalso. apply (Ht (rev r)). apply (f_equal (@rev N)) in E. rewrite rev_involutive in E. now subst.
     + rewrite <- E. apply rev_involutive.
 Qed.
@@ -215,7 +215,7 @@ Proof.
     assert (after_last SEP pa = []) as ->.
     { destruct Hp as [-> | (p & ->)]; [reflexivity | apply (last_snoc SEP p)]. }
     simpl. repeat split; try assumption; try reflexivity.
-    now rewrite <- app_assoc.
+    intro x. now rewrite <- app_assoc.
 Qed.
 
 (* ext() and name() depend on the last component only *)
@@ -309,7 +309,7 @@ Proof.
   rewrite M, rev_app_distr. simpl.
   destruct (rev p) as [|x r] eqn:Er.
   - apply (f_equal (@rev N)) in Er. rewrite rev_involutive in Er. now subst.
-  - simpl. destruct (N.eqb_spec SEP x) as [<-|Hne].
+  - cbn [dropWhile]. destruct (N.eqb_spec SEP x) as [<-|Hne].
     + exfalso. apply (Hp2 (rev r)). apply (f_equal (@rev N)) in Er. rewrite rev_involutive in Er. now subst.
     + rewrite <- Er. apply rev_involutive.
 Qed.
@@ -342,6 +342,10 @@ Lemma filename_ext_old_refuted :
 Proof.
   exists [100; 105; 114; 46; 100; 47; 102; 105; 108; 101].
   split; [|vm_compute; repeat split; try discriminate].
-  - rewrite <- (fn_norm_normal [100; 105; 114; 46; 100; 47; 102; 105; 108; 101]) at 1. apply fn_norm_normal.
+  - exact (fn_norm_normal [100; 105; 114; 46; 100; 47; 102; 105; 108; 101]).
   - intros [E|[E|[E|[E|[]]]]]; discriminate.
 Qed.
+
+Lemma fn_norm_spec s :
+  (~ In BSL (fn_norm s) /\ forall g, fn_norm s <> g ++ [SEP]) /\ fn_norm (fn_norm s) = fn_norm s.
+Proof. split; [apply fn_norm_normal | apply fn_norm_idem]. Qed.
